@@ -29,10 +29,10 @@ func init() {
 	Register(&Check{Prop: "C10", Run: runC10, Replay: func(c *Ctx, cs *Case) { evalC10(c, cs) }})
 }
 
-var c10Ops = []string{"text", "branch", "json", "yaml", "dryrun", "walk", "mkdir", "verify", "verify.strict"}
+var c10Ops = []string{"text", "branch", "json", "yaml", "dryrun", "walk", "mkdir", "verify", "verify.strict", "dryrun.branch", "walk.branch", "mkdir.noext"}
 
 func runC10(c *Ctx) bool {
-	n := c.Pick(2400, 20000)
+	n := c.Pick(1600, 20000)
 	if c.Race {
 		n = c.Pick(160, 6000)
 	}
@@ -175,6 +175,13 @@ func c10RunW(c *Ctx, op string, doc []byte, massive bool, profile int, seed uint
 		opts = append(opts, gtree.WithEncodeYAML())
 	case "dryrun":
 		opts = append(opts, gtree.WithDryRun(), gtree.WithFileExtensions([]string{".gz"}))
+	case "dryrun.branch": // dry run + custom branch strings + two extensions
+		opts = append(opts, gtree.WithDryRun(), gtree.WithFileExtensions([]string{".gz", "b"}))
+		opts = append(opts, BranchOptions(6)...)
+	case "walk.branch":
+		opts = append(opts, BranchOptions(4)...)
+	case "mkdir.noext":
+		opts = append(opts, gtree.WithTargetDir(target))
 	case "mkdir":
 		opts = append(opts, gtree.WithTargetDir(target), gtree.WithFileExtensions([]string{".gz"}))
 	case "verify":
@@ -212,9 +219,9 @@ func c10RunW(c *Ctx, op string, doc []byte, massive bool, profile int, seed uint
 	base := runtime.NumGoroutine()
 	o := Guard(func() error {
 		switch op {
-		case "walk":
+		case "walk", "walk.branch":
 			return gtree.WalkFromMarkdown(rd, wl.cb, opts...)
-		case "mkdir":
+		case "mkdir", "mkdir.noext":
 			return gtree.MkdirFromMarkdown(rd, opts...)
 		case "verify", "verify.strict":
 			return gtree.VerifyFromMarkdown(rd, opts...)
@@ -229,7 +236,7 @@ func c10RunW(c *Ctx, op string, doc []byte, massive bool, profile int, seed uint
 	wl.mu.Lock()
 	res.rows = append([]model.Row(nil), wl.rows...)
 	wl.mu.Unlock()
-	if op == "mkdir" {
+	if op == "mkdir" || op == "mkdir.noext" {
 		res.snap, _ = mon.Snap(target)
 	}
 	return
@@ -271,7 +278,7 @@ func evalC10(c *Ctx, cs *Case) {
 	r := gen.New(cs.Seed, 10)
 	baseTags := append([]string(nil), cs.Tags...)
 	defer func() { cs.Tags, cs.Entry, cs.N = baseTags, "", nil }()
-	fsOp := op == "mkdir" || op == "verify" || op == "verify.strict"
+	fsOp := op == "mkdir" || op == "mkdir.noext" || op == "verify" || op == "verify.strict"
 	if fsOp {
 		// distinct roots required
 		seen := map[string]bool{}
@@ -303,12 +310,12 @@ func evalC10(c *Ctx, cs *Case) {
 				cs.AddTag("dir-extra-entry")
 			}
 		}
-		if prepare && op == "mkdir" && cs.HasTag("preexisting-root") {
+		if prepare && (op == "mkdir" || op == "mkdir.noext") && cs.HasTag("preexisting-root") {
 			mkdirAll(j.Target + "/" + merged[len(merged)-1].Name)
 		}
 		return j
 	}
-	if op == "mkdir" && len(merged) >= 2 && r.Chance(1, 6) {
+	if (op == "mkdir" || op == "mkdir.noext") && len(merged) >= 2 && r.Chance(1, 6) {
 		cs.AddTag("preexisting-root")
 		baseTags = append(baseTags, "preexisting-root")
 	}
@@ -330,11 +337,11 @@ func evalC10(c *Ctx, cs *Case) {
 	}
 	// per-root line counts for block splitting come from the model (well-formed documents)
 	var refBlocks []string
-	if ref.err == nil && (op == "text" || op == "branch" || op == "dryrun") {
+	if ref.err == nil && (op == "text" || op == "branch" || op == "dryrun" || op == "dryrun.branch") {
 		counts := make([]int, len(merged))
 		for i, rt := range merged {
 			counts[i] = rt.Size()
-			if op == "dryrun" {
+			if op == "dryrun" || op == "dryrun.branch" {
 				counts[i] += 2
 			}
 		}
@@ -345,7 +352,7 @@ func evalC10(c *Ctx, cs *Case) {
 		}
 	}
 	// ---- a failing writer: massive fails iff simple fails (output operations)
-	if !fsOp && op != "walk" && ref.err == nil {
+	if !fsOp && op != "walk" && op != "walk.branch" && ref.err == nil {
 		for _, k := range []int{0, 1, 3} {
 			sref, _ := c10RunW(c, op, doc, false, 0, 0, "", k)
 			cs.Entry = op + ",massive"
@@ -382,7 +389,7 @@ func evalC10(c *Ctx, cs *Case) {
 			var j *mon.Jail
 			tgt := ""
 			if fsOp {
-				if op == "mkdir" {
+				if op == "mkdir" || op == "mkdir.noext" {
 					if j = mkJail(true); j == nil {
 						continue
 					}
@@ -437,7 +444,7 @@ func evalC10(c *Ctx, cs *Case) {
 			case ref.err != nil:
 				// both reject: nothing else to compare, except that a rejected mkdir must leave the
 				// same filesystem behind as the simple mode does
-				if op == "mkdir" {
+				if op == "mkdir" || op == "mkdir.noext" {
 					if d := mon.Diff(ref.snap, got.snap); len(d) != 0 {
 						det["why"] = "filesystem after a rejected mkdir differs: " + strings.Join(d, ", ")
 						c.Violation(cs, "result.differs", "mkdir-rejected", det)
@@ -447,7 +454,7 @@ func evalC10(c *Ctx, cs *Case) {
 			}
 			ok, why := true, ""
 			switch op {
-			case "text", "branch", "dryrun":
+			case "text", "branch", "dryrun", "dryrun.branch":
 				if refBlocks != nil {
 					ok, why = coverBlocks(string(got.out), refBlocks), "output is not an exact cover of the simple output's per-root blocks"
 				} else {
@@ -458,9 +465,9 @@ func evalC10(c *Ctx, cs *Case) {
 				ok, why = sameMultiset(a, b), "JSON lines are not the same multiset"
 			case "yaml":
 				ok, why = sameStrings(yamlDocs(string(got.out)), yamlDocs(string(ref.out))), "YAML documents are not the same multiset"
-			case "walk":
+			case "walk", "walk.branch":
 				ok, why = c10WalkSame(got.rows, ref.rows, cs.HasTag("equal-root-names"))
-			case "mkdir":
+			case "mkdir", "mkdir.noext":
 				d := mon.Diff(ref.snap, got.snap)
 				ok, why = len(d) == 0, "filesystem differs: "+strings.Join(d, ", ")
 			}
